@@ -193,7 +193,7 @@ impl<'w, 'r, 'gc> Cb<'w, 'r, 'gc> {
 
     fn set_for(&self, s: SetRef) -> Option<DynamicRootSet<'gc>> {
         match s {
-            SetRef::Root => Some(self.root.get().set),
+            SetRef::Root => self.root.get().set,
             SetRef::Holder(h) => self.map.get(&h).and_then(|a| access::set_of(*a)),
         }
     }
@@ -276,7 +276,7 @@ impl<'w, 'r, 'gc> Cb<'w, 'r, 'gc> {
                 }
             }
         }
-        let mut sets: Vec<(Id, DynamicRootSet<'gc>)> = vec![(self.w.sh.arena(a).root_set_inner, self.root.get().set)];
+        let mut sets: Vec<(Id, DynamicRootSet<'gc>)> = self.root.get().set.map(|s| (self.w.sh.arena(a).root_set_inner, s)).into_iter().collect();
         let mut seen: BTreeSet<Id> = BTreeSet::new();
         loop {
             while let Some((id, any)) = stack.pop() {
@@ -656,6 +656,9 @@ impl<'w, 'r, 'gc> Cb<'w, 'r, 'gc> {
                         r.weak[slot] = Some(wk);
                         self.cover_write("root-write-weak", None, Some(*child));
                         self.w.sh.set_weak(a, Holder::Root, slot, Some(*child));
+                        if matches!(self.phase, Phase::Marking | Phase::Marked) {
+                            self.w.rt[a as usize].adopted_weak_cur.insert(*child);
+                        }
                         self.rep.mutated = true;
                         self.rep.only_barriers = false;
                     }
@@ -678,6 +681,9 @@ impl<'w, 'r, 'gc> Cb<'w, 'r, 'gc> {
                         };
                         if wrote == Wrote::Done {
                             self.w.sh.set_weak(a, *holder, slot, Some(*child));
+                            if matches!(self.phase, Phase::Marking | Phase::Marked) {
+                                self.w.rt[a as usize].adopted_weak_cur.insert(*child);
+                            }
                         }
                         // a weak edge does not change strong reachability, but barriers may mark
                         self.rep.mutated = true;
@@ -1253,7 +1259,7 @@ impl<'w, 'r, 'gc> Cb<'w, 'r, 'gc> {
         }
         let a = self.a;
         let mc = self.mc;
-        let cache = self.root.get().zst;
+        let Some(cache) = self.root.get().zst else { return self.skip() };
         let count0 = mc.metrics().total_gc_count();
         let since = seam::mark();
         macro_rules! zst {
@@ -1488,7 +1494,7 @@ impl<'w, 'r, 'gc> Cb<'w, 'r, 'gc> {
         let now = seam::mark();
         let mut live_new = vec![];
         for b in since..now {
-            if seam::block(b).live && seam::block(b).owner == 0 {
+            if seam::block(b).live && !seam::block(b).light && seam::block(b).owner == 0 {
                 live_new.push(b);
             }
         }
@@ -1551,6 +1557,9 @@ impl<'w, 'r, 'gc> Cb<'w, 'r, 'gc> {
             let snap = mc.verif_snapshot();
             for b in since..now {
                 let blk = seam::block(b);
+                if blk.light {
+                    continue;
+                }
                 if snap.objects.iter().any(|o| o.addr >= blk.user && o.addr <= blk.user + blk.size) {
                     self.viol("C18.visible", format!("builder {kind:?} {stage:?}: its block is in the collector's object list"));
                     return;
